@@ -187,6 +187,22 @@ func Faults(c *Ctx) error {
 		}
 		Regen(in.Src)
 		Regen(in.Dst)
+		if in.Kind == "kill" {
+			srcDir := filepath.Join(c.Work, "ksrc")
+			os.MkdirAll(srcDir, 0755)
+			if err := disk.Materialise(srcDir, in.Src); err != nil {
+				return err
+			}
+			evs, _, _, err := runKill(c, c.caseNo+1, *in, srcDir)
+			c.caseNo += 2
+			if err != nil {
+				return err
+			}
+			for _, e := range evs {
+				c.Out.Emit(e)
+			}
+			return nil
+		}
 		evs, _, _, err := runFault(c, c.caseNo+1, *in, "")
 		c.caseNo += 2
 		if err != nil {
@@ -229,6 +245,45 @@ func Faults(c *Ctx) error {
 			{"S.send", cnt.SSend}, {"S.recv", cnt.SRecv}, {"R.send", cnt.RSend}, {"R.recv", cnt.RRecv},
 			{"S.cancel@send", cnt.SSend}, {"S.cancel@recv", cnt.SRecv}, {"R.cancel@send", cnt.RSend}, {"R.cancel@recv", cnt.RRecv},
 			{"walk", cnt.Walks}, {"open", cnt.Opens}, {"read", cnt.Opens}, {"hasher", cnt.Hasher}, {"notify", cnt.Notify},
+		}
+		// SIGKILL of the receiving process at the sender's k-th SendMsg
+		if len(sc.OnlyKinds) == 0 && sc.SlowData == 0 {
+			var ks []int
+			if cnt.SSend <= 40 {
+				for k := 0; k < cnt.SSend; k++ {
+					ks = append(ks, k)
+				}
+			} else {
+				for _, k := range []int{0, 1, 150, 301, 450, cnt.SSend - 2} {
+					ks = append(ks, k)
+				}
+			}
+			hung := 0
+			for _, k := range ks {
+				if hung >= 2 {
+					continue
+				}
+				in := sc
+				in.Kind, in.K = "kill", k
+				n := c.caseNo + 1
+				c.caseNo += 2
+				evs, _, hang, err := runKill(c, n, in, srcDir)
+				if err != nil {
+					return fmt.Errorf("%s kill@%d: %w", sc.Scenario, k, err)
+				}
+				for _, e := range evs {
+					c.Out.Emit(e)
+				}
+				c.Stats.Case(vt.Opaque(struct {
+					S string
+					N int
+				}{sc.Scenario, k}), true)
+				c.Stats.Count("kind:kill", 1)
+				if hang {
+					hung++
+					c.Stats.Count("hang:kill", 1)
+				}
+			}
 		}
 		for _, kd := range kinds {
 			if len(sc.OnlyKinds) > 0 {
